@@ -487,7 +487,7 @@ class Checker:
             self.table[(a, b)] = p[2] if p[1] else None
         if exp is None or len(exp) > 1:
             ctx.seen(("bs2", fl, ka, kb, a, b))
-        if len(ctx.samples) < 2 and exp is not None and len(exp) >= 2 and a != b:
+        if len(ctx.samples) < 2 and exp is not None and len(exp) >= 2 and exp != a and exp != b and ka != kb:
             ctx.sample(dict(op="broadcast_shape", kinds=cfg, a=list(a), b=list(b), has_value=p[1], result=list(p[2]) if p[1] else None))
         if exp is None and sum(1 for s in ctx.samples if isinstance(s, dict) and s.get("has_value") == 0) < 1:
             ctx.sample(dict(op="broadcast_shape", kinds=cfg, a=list(a), b=list(b), has_value=p[1], result=None))
@@ -773,9 +773,8 @@ class Checker:
             m = batch.meta.get(c.case_id, {})
             self.crashes += 1
             if m:
-                kinds = m.get("kinds") or (m.get("sk"), m.get("dk"))
                 op = m["op"] if fl == "asan" else "%s[%s]" % (m["op"], fl)
-                ctx.violation("%s:%s:crash:%s" % (op, ",".join(str(k) for k in kinds), c.kind()),
+                ctx.violation("%s:%s:crash:%s" % (op, kinds_str(m), c.kind()),
                               "process died instead of reporting a result in case %s: %s" % (short(m), c.kind()), dict(case=short(m), stderr=c.stderr[-3000:]))
             else:
                 ctx.violation("runner[%s]:crash:%s" % (fl, c.kind()), "harness process died outside a case: %s" % c.kind(), dict(stderr=c.stderr[-3000:]))
@@ -794,8 +793,13 @@ class Checker:
             for (s, v, f0, f1) in self.hacc.add(hooks):
                 ctx.violation("%s:hook:%s" % (m["op"], SITE_NAMES.get(s, s)), "hook %s reported index %d outside bound %d in %s" % (SITE_NAMES.get(s, s), f0, f1, short(m)), dict(case=short(m), line=line))
             try:
-                if toks and toks[0] in ("ERR", "EXC"):
-                    raise ValueError("harness error record: " + " ".join(toks[:6]))
+                if "EXC" in toks:
+                    k = toks.index("EXC")
+                    ctx.violation("%s:%s:exception" % (m["op"] if fl == "asan" else "%s[%s]" % (m["op"], fl), kinds_str(m)),
+                                  "exception escaped the library instead of a reported result in %s: %s" % (short(m), " ".join(toks[k:k + 2])), dict(case=short(m), line=line))
+                    continue
+                if "ERR" in toks:
+                    raise ValueError("harness error record: " + " ".join(toks[:8]))
                 ret[cid] = handler(m, Tok(toks), line, fl)
             except (ValueError, IndexError) as e:
                 ctx.violation("%s:malformed" % m["op"], "unparsable record %s: %s" % (" ".join(toks[:30]), e), dict(case=short(m), line=line))
@@ -810,6 +814,13 @@ def dom_set(dom, _cache={}):
     if k not in _cache:
         _cache[k] = set(dom)
     return _cache[k]
+
+
+def kinds_str(m):
+    if m["op"] == "bto":
+        return "%s->%s" % (AN[m["sk"]], KN[m["dk"]])
+    names = AN if m["op"].startswith("barr") else KN
+    return ",".join(names[k] for k in m["kinds"])
 
 
 def short(m):
